@@ -67,7 +67,7 @@ class Check:
         self.solver_cap_ms = int(os.environ.get('VERIF_QUERY_CAP_MS', '120000' if self.tier == 'quick' else '900000'))
 
     # ------------------------------------------------------------------ regeneration
-    def dump(self, key, want_doc=True):
+    def dump(self, key, want_doc=True, want_mir=True):
         crate, cname, feats = CRATES[key]
         mir = os.path.join(CACHE, 'mir', f'{key}.mir')
         doc = os.path.join(CACHE, 'mir', f'{key}.json')
@@ -78,9 +78,10 @@ class Check:
         with open(lock, 'w') as lf:
             fcntl.flock(lf, fcntl.LOCK_EX)
             env = dict(os.environ, VERIF_REPO=REPO, VERIF_CACHE=CACHE)
-            r = subprocess.run([os.path.join(VERIF, 'tools/mirdump.sh'), crate, mir, feats], env=env, capture_output=True, text=True)
-            if r.returncode != 0:
-                raise Broken(f'MIR dump of {crate} failed (does /repo still compile?):\n' + r.stderr[-2000:])
+            if want_mir:
+                r = subprocess.run([os.path.join(VERIF, 'tools/mirdump.sh'), crate, mir, feats], env=env, capture_output=True, text=True)
+                if r.returncode != 0:
+                    raise Broken(f'MIR dump of {crate} failed (does /repo still compile?):\n' + r.stderr[-2000:])
             if want_doc:
                 r = subprocess.run([os.path.join(VERIF, 'tools/rustdocdump.sh'), crate, doc, feats], env=env, capture_output=True, text=True)
                 if r.returncode != 0:
@@ -346,7 +347,8 @@ def parallel_map(C, worker, jobs, nproc=None):
     if not pairs:
         return
     with ctx.Pool(min(nproc, max(1, len(pairs)))) as pool:
-        results = [pool.apply_async(_run_worker, (w.__module__, w.__name__, sd, j)) for w, j in pairs]
+        mainmod = os.path.splitext(os.path.basename(sys.argv[0]))[0]
+        results = [pool.apply_async(_run_worker, (w.__module__ if w.__module__ != '__main__' else mainmod, w.__name__, sd, j)) for w, j in pairs]
         for j, r in zip(jobs, results):
             try:
                 d = r.get()
